@@ -15,7 +15,7 @@ var purePkgs = map[string]bool{
 	"path/filepath": true, "errors": true, "fmt": true, "regexp": true, "net": true, "mime": true, "time": true,
 	"net/url": true, "encoding/base64": true, "encoding/hex": true, "math/bits": true, "html": true, "log": true,
 	"reflect": true, "os": true, "bytes": true, "sort": false, "encoding/json": true, "net/http": true, "io": true,
-	"math/rand": true, "crypto/subtle": true, "net/textproto": true, "context": true,
+	"math/rand": true, "crypto/subtle": true, "net/textproto": true, "context": true, "sync/atomic": true, "crypto/sha256": true, "crypto/hmac": true, "unicode/utf16": true, "hash/fnv": true, "html/template": true, "text/template": true,
 }
 
 // impure members of otherwise heap-pure packages (they write caller-visible Go memory)
@@ -66,7 +66,7 @@ func (ft *FT) calleeWrites(fn *ssa.Function, seen map[*ssa.Function]bool) (map[s
 		if ft.eng.models[name] != nil {
 			return keys, false
 		}
-		if purePkgs[calleePkgPath(fn)] && !impureFuncs[name] {
+		if purePkgs[calleePkgPath(fn)] && !isImpure(name) {
 			keys["$next"] = true
 			return keys, false
 		}
@@ -365,7 +365,7 @@ func (ft *FT) call(st *State, guard Term, c *ssa.CallCommon, preArgs []Term, ins
 	if pc := ft.paramContract(c.Value); pc != nil {
 		return ft.paramCall(st, guard, pc, c, args, pos)
 	}
-	if callee != nil && callee.Blocks == nil && purePkgs[calleePkgPath(callee)] && !impureFuncs[name] {
+	if callee != nil && callee.Blocks == nil && purePkgs[calleePkgPath(callee)] && !isImpure(name) {
 		// heap-pure library function: deterministic function of scalar arguments
 		ft.note("library call treated as heap-pure: " + name)
 		scalar := true
@@ -1122,4 +1122,18 @@ func isStdPath(p string) bool {
 		first = p[:i]
 	}
 	return !strings.Contains(first, ".")
+}
+
+func isImpure(name string) bool {
+	if impureFuncs[name] {
+		return true
+	}
+	if strings.Contains(name, "atomic.") {
+		for _, w := range []string{"Store", "Add", "Swap", "And", "Or"} {
+			if strings.Contains(name[strings.LastIndex(name, ".")+1:], w) {
+				return true
+			}
+		}
+	}
+	return false
 }
